@@ -445,6 +445,20 @@ def inplace(ctx, i):
                                    cp.region if name == "mesh" else cp).units),
                   inplace_units=list((obj.mesh.region if name == "field" else
                                       obj.region if name == "mesh" else obj).units), **info)
+        if name != "region":
+            # "equal to what the copying form returns": both forms carry out the same
+            # arithmetic on the same numbers, so region and subregions agree to the last bit
+            ma, mb = (cp.mesh, obj.mesh) if name == "field" else (cp, obj)
+            same = (np.array_equal(ma.region.pmin, mb.region.pmin)
+                    and np.array_equal(ma.region.pmax, mb.region.pmax)
+                    and list(ma.subregions) == list(mb.subregions)
+                    and all(np.array_equal(ma.subregions[q].pmin, mb.subregions[q].pmin)
+                            and np.array_equal(ma.subregions[q].pmax, mb.subregions[q].pmax)
+                            for q in ma.subregions))
+            ctx.check("C12.inplace.equals_copy", same, exact=True,
+                      copy={q: [ma.subregions[q].pmin, ma.subregions[q].pmax] for q in ma.subregions},
+                      in_place={q: [mb.subregions[q].pmin, mb.subregions[q].pmax] for q in mb.subregions},
+                      **info)
         if name == "field":
             check_rotated_field(ctx, su, snap(su.field()), obj, info)
 
